@@ -241,8 +241,10 @@ func realLinks(c *vf.Ctx, rng *rand.Rand, burst int) (events []any, desc map[str
 	var inj sync.WaitGroup
 	for side, from := range []*world.Node{a, cc, a} {
 		inj.Add(1)
+		sideSeed := rng.Int63() // every injector draws from a generator of its own (math/rand generators are not safe for concurrent use)
 		go func(side int, from *world.Node) {
 			defer inj.Done()
+			rng := rand.New(rand.NewSource(sideSeed))
 			sp, dst := toC, cc
 			if side == 1 {
 				sp, dst = toA, a
